@@ -308,7 +308,7 @@ def run(index, rep, tier):
                 pn = index.function(XR + "._NexmlTreeParser._parse_nodes")
                 accepted = set()
                 for n in ast.walk(pn.node):
-                    if isinstance(n, ast.Compare) and type(n.ops[0]).__name__ == "In" and isinstance(n.comparators[0], (ast.Tuple, ast.List, ast.Set)) and "rooting" in norm(n.left):
+                    if isinstance(n, ast.Compare) and type(n.ops[0]).__name__ in ("In", "NotIn") and isinstance(n.comparators[0], (ast.Tuple, ast.List, ast.Set)) and "rooting" in norm(n.left):
                         accepted |= {const_value(e) for e in n.comparators[0].elts}
                 for v in values["root"]:
                     rep.check(v.lower() in accepted, "R02.4", wfi.qualname, 'root="%s" accepted by reader' % v, fn_where(wfi), 'root="%s" is one of the reader\'s accepted spellings %s' % (v, sorted(accepted)),
